@@ -69,3 +69,88 @@ Definition run_canon (ro : ropts) (e : env) (s : schema) (bs : bytes) : string :
 Definition run_d2s (bits : Z) : string := match d2s bits with Ok s => tohex (le_bytes 4 s) | _ => "E" end.
 Definition run_z2d (z : Z) : string := match z2d z with Ok s => tohex (le_bytes 8 s) | _ => "E" end.
 Definition run_z2s (z : Z) : string := match z2d z with Ok d => run_d2s d | _ => "E" end.
+
+(** ---- container glue (null codec inside the model; other codecs are re-framed by the harness) ---- *)
+From FA Require Import model.Container.
+
+Definition idc (b : bytes) : bytes := b.
+
+Inductive hop :=
+| HWrite (v : pyval)               (* Writer.write(record) *)
+| HFlush
+| HBlockRaw (n : Z) (raw : bytes)  (* write_block with a donor block: record count and decompressed payload *)
+| HReopen.
+
+Definition hstep (wo : wopts) (validator : bool) (e : env) (s : schema) (sync : bytes) (si : Z)
+                 (st : wstate) (o : hop) : wstate * string :=
+  match o with
+  | HWrite v =>
+      let accepted :=
+        if validator then match validate FUEL wo e s (Some v) with Ok true => true | _ => false end else true in
+      if accepted then
+        match elab FUEL wo e s v with
+        | WOk a => (wstep idc sync si st (OWrite a), "ok")
+        | WErr => (wstep idc sync si st OWriteBad, "raised")
+        | WUnspec => (st, "U")
+        | WFuel => (st, "FUEL")
+        end
+      else (wstep idc sync si st OWriteBad, "raised")
+  | HFlush => (wstep idc sync si st OFlush, "ok")
+  | HBlockRaw n raw =>
+      let st' := flush idc sync st in
+      (mkW (out st' ++ block_bytes idc sync n raw)%list [] 0, "ok")
+  | HReopen => (wstep idc sync si st OReopen, "ok")
+  end.
+
+(* after every operation: its status and the bytes it appended to the stream *)
+Fixpoint run_hops (wo : wopts) (validator : bool) (e : env) (s : schema) (sync : bytes) (si : Z)
+                  (st : wstate) (ops : list hop) : string :=
+  match ops with
+  | [] => ""
+  | o :: ops =>
+      let (st', status) := hstep wo validator e s sync si st o in
+      status ++ ":" ++ tohex (skipn (List.length (out st)) (out st')) ++ ";" ++ run_hops wo validator e s sync si st' ops
+  end.
+
+Definition run_history (wo : wopts) (validator : bool) (e : env) (s : schema) (meta : list (bytes * bytes))
+                       (sync : bytes) (si : Z) (ops : list hop) : string :=
+  "H:" ++ tohex (header_bytes meta sync) ++ ";" ++ run_hops wo validator e s sync si (wcreate sync meta) ops.
+
+Definition show_outcome (o : outcome) : string :=
+  match o with EndOK => "END" | Raised => "RAISED" | NoFuel => "FUEL" end.
+
+Fixpoint show_records (ro : ropts) (e : env) (s : schema) (l : list aval) : string :=
+  match l with
+  | [] => ""
+  | a :: l => match py_of ro e s a with Some v => show_py v | None => "?" end ++ ";" ++ show_records ro e s l
+  end.
+
+(* fastavro.reader(file): the records yielded and how iteration ended (null codec) *)
+Definition run_readfile (ro : ropts) (e : env) (s : schema) (file : bytes) : string :=
+  let (l, oc) := read_container Ok e s FUEL FUEL (S (List.length file)) file in
+  show_records ro e s l ++ "|" ++ show_outcome oc.
+
+Fixpoint show_infos (l : list (Z * Z * Z)) : string :=
+  match l with
+  | [] => ""
+  | (o, sz, c) :: l => show_Z o ++ "," ++ show_Z sz ++ "," ++ show_Z c ++ ";" ++ show_infos l
+  end.
+
+(* block_reader(file): (offset, size, num_records) of every block *)
+Definition run_blockinfos (file : bytes) : string :=
+  match read_header FUEL file with
+  | Ok (_, sync, rest) =>
+      let off := len file - len rest in
+      let (l, oc) := read_block_infos Ok (S (List.length rest)) sync off rest in
+      show_infos l ++ "|" ++ show_outcome oc
+  | _ => "|RAISED"
+  end.
+
+Definition run_is_avro (bs : bytes) : string := if is_avro bs then "T" else "F".
+
+(* a foreign file: header (meta map in a given layout) + blocks given as (count, list of record layouts) *)
+Definition foreign_file (hdr_meta : lval) (sync : bytes) (blocks : list (Z * list lval)) : bytes :=
+  (wire_l (LRecord [LLeaf (AFixed MAGIC); hdr_meta; LLeaf (AFixed sync)]) ++
+   flat_map (fun b => block_bytes idc sync (fst b) (flat_map wire_l (snd b))) blocks)%list.
+Definition run_foreign (hdr_meta : lval) (sync : bytes) (blocks : list (Z * list lval)) : string :=
+  tohex (foreign_file hdr_meta sync blocks).
